@@ -176,6 +176,10 @@ class Run:
     def build(self, env_name: str, dnames: List[str], pauses: Optional[dict] = None, flip_async: bool = False) -> None:
         env = self.envs.get(env_name) or self.make_env(env_name, flip_async)
         for dname in dnames:
+            der = self.spec["dags"][dname].get("derived")
+            if der is not None:
+                self._build_derived(env_name, env, dname, der)
+                continue
             src = render_dag(self.spec, dname, (pauses or {}).get(dname))
             # tawazi asks inspect.getframeinfo() for every call site; for a file name that does not exist inspect scans
             # sys.modules each time (half of the run time).  Pre-seeding inspect's file->module cache only short-cuts that scan.
@@ -184,6 +188,31 @@ class Run:
             exec(code, env)  # noqa: S102 - generated program
             self.instances[f"{env_name}:{dname}"] = env[dname]
             self.inst_table[f"{env_name}:{dname}"] = f"{env_name}:{dname}"
+
+    def _build_derived(self, env_name: str, env: dict, dname: str, der: dict) -> None:
+        """A DAG obtained with compose() from an already built one (written out in spec['dags'][dname] for the reference)."""
+        binst = f"{env_name}:{der['from']}"
+        base = self.instances[binst]
+        ins = [self.alias(binst, ["ref", i]) for i in der["inputs"]]
+        outs = [self.alias(binst, ["ref", i]) for i in der["outputs"]]
+        comp = base.compose(dname, ins, outs)
+        btab = self.tables[self.inst_table[binst]]
+        keep = {int(k): v for k, v in der["keep"].items()}
+        table: Dict[str, dict] = {}
+        in_ids = [u.id for u in comp.input_uxns]
+        for nid in comp.exec_nodes:
+            if nid in in_ids:
+                table[nid] = dict(path=None, role="param", stmt=None, idx=in_ids.index(nid))
+                continue
+            bi = btab.get(nid)
+            if bi is not None and bi["role"] in ("main", "const") and bi.get("stmt") in keep:
+                table[nid] = dict(bi, path=((dname, keep[bi["stmt"]]),), stmt=keep[bi["stmt"]])
+            else:
+                table[nid] = dict(path=None, role="retconst", stmt=None)
+        self.tables[f"{env_name}:{dname}"] = table
+        env[dname] = comp
+        self.instances[f"{env_name}:{dname}"] = comp
+        self.inst_table[f"{env_name}:{dname}"] = f"{env_name}:{dname}"
 
     def build_table(self, env_name: str, dname: str, d: Any, marks: List[tuple]) -> Dict[str, dict]:
         """node id -> {path, role, fn, stmt} using the insertion order of the node table and the marks."""
